@@ -13,6 +13,8 @@ import CelloProofs.Lemmas.HashVal
 import CelloProofs.Lemmas.HashCont
 import CelloProofs.Lemmas.HashObj
 import CelloProofs.Lemmas.HashLift
+import CelloProofs.Lemmas.HashTable
+import CelloProofs.Lemmas.HashOrder
 set_option linter.unusedSimpArgs false
 set_option linter.unusedVariables false
 
@@ -315,6 +317,17 @@ theorem C10_type_copy_refused (addr : Nat → Bytes) (st : Store) (n m : Bytes) 
 example : SrcWellFormed (fun _ => []) #[] (.tree .int .int [(.int 55, .int 1), (.int 0, .int 2)]) := by
   simp [SrcWellFormed, TreeSeq, Desc, scalarCmp]; decide
 
+/-- **for a Tree, eq and hash are functions of the abstract map, independent of the insertion history**: two Trees (strictly
+    descending iteration sequences) with the same set of entries have the same iteration sequence, hence compare eq and hash
+    alike -/
+theorem C10_tree_history_independent (addr : Nat → Bytes) (st : Store) (kt vt kt' vt' : Ty) (xs ys : List (Scalar × Scalar))
+    (hx : TreeSeq addr xs) (hy : TreeSeq addr ys) (h : ∀ e, e ∈ xs ↔ e ∈ ys) :
+    valCmp addr st (.tree kt vt xs) (.tree kt' vt' ys) = some 0 ∧
+    valHash addr st (.tree kt vt xs) = valHash addr st (.tree kt' vt' ys) := by
+  have e := treeSeq_unique hx hy h
+  subst e
+  exact ⟨by rw [valCmp_map (xs := xs) (ys := xs) rfl rfl]; exact mapCmp_self (scalarCmp_self addr) (scalarCmp_self addr) xs, rfl⟩
+
 /-! ### Table: copy/assign under `Table_Cmp`, which iterates in slot order (known finding F06) -/
 
 /-- the statement one would want: the copy of a Table (here: of any Table built by the constructor) is eq to it. FALSE. -/
@@ -340,6 +353,35 @@ theorem C10_copy_table_hash_of_perm (addr : Nat → Bytes) (st : Store) (kt vt :
     (hperm : (tableOfEntries addr t.entries).entries.Perm t.entries) :
     valHash addr st (.table kt vt (tableOfEntries addr t.entries)) = valHash addr st (.table kt vt t) := by
   simp only [valHash]; exact mapHash_perm _ _ _ hperm
+
+/-- **the copy of a Table holds the same abstract map and hashes the same, whatever the two slot orders are** — for every
+    Table whose keys are pairwise different under `eq` (the Table invariant), every hash function and allocation class:
+    robin-hood re-insertion (`Table_Assign` → `Table_Set_Move`) keeps the multiset of entries. Only `eq` itself can fail
+    (`C10_table_cmp_refuted`). -/
+theorem C10_copy_table_hash (addr : Nat → Bytes) (st : Store) (kt vt kt' vt' : Ty) (t t' : Table) (cls : Cls)
+    (hd : EntryKeysDistinct addr t.entries) :
+    ∃ c : Table, copyVal addr st (.table kt vt t) = .ok (.table kt vt c) ∧
+      assignVal addr st cls (.table kt' vt' t') (.table kt vt t) = .ok (.table kt vt c) ∧
+      c.entries.Perm t.entries ∧
+      valHash addr st (.table kt vt c) = valHash addr st (.table kt vt t) :=
+  ⟨tableOfEntries addr t.entries, rfl, rfl, tableOfEntries_perm addr _ hd,
+    C10_copy_table_hash_of_perm addr st kt vt t (tableOfEntries_perm addr _ hd)⟩
+
+/-- **assignment across the two map kinds** (Table from Tree, Tree from Table): the target holds a permutation of the
+    source's entries and hashes like the source, for every entry sequence with pairwise different comparable keys -/
+theorem C10_assign_across_maps (addr : Nat → Bytes) (st : Store) (kt vt : Ty) (es : List (Scalar × Scalar))
+    (hd : es.Pairwise (KeysApart addr)) :
+    (tableOfEntries addr es).entries.Perm es ∧ (treeOfEntries addr es).Perm es ∧
+    valHash addr st (.table kt vt (tableOfEntries addr es)) = valHash addr st (.tree kt vt es) ∧
+    valHash addr st (.tree kt vt (treeOfEntries addr es)) = valHash addr st (.tree kt vt es) := by
+  have h1 := tableOfEntries_perm addr es (entryKeysDistinct_of_apart hd)
+  have h2 := treeOfEntries_perm addr es hd
+  exact ⟨h1, h2, (C10_container_hash_map (scalarHash addr) (scalarHash addr) h1).2.2,
+    (C10_container_hash_map (scalarHash addr) (scalarHash addr) h2).2.1⟩
+
+/-- non-vacuity: the keys 4 and 9 are apart -/
+example : [(Scalar.int 4, Scalar.int 1), (Scalar.int 9, Scalar.int 2)].Pairwise (KeysApart (fun _ => [])) := by
+  simp [KeysApart, scalarCmp]; decide
 
 /-- the Int keys 4 and 9 share home slot 4 of 5: the Table built by `new(Table, Int, Int, 4, 1, 9, 2)` keeps 9 in slot 0
     (wrapped around) and 4 in slot 4, its copy re-inserts in slot order (9 first) and ends up with 4 in slot 0 -/
